@@ -32,14 +32,14 @@ def main():
                 srows.append((name, json.load(open(mp)), json.load(open(rp2))))
     if srows:
         out += ["### Changes written by independent sub-agents (`seeded/<id>/`, `tools/run_seeded.py`)", "",
-                "| id | property | change | needs, to manifest | tests pass with it | demo with / without | detected by | missed by |",
-                "|---|---|---|---|---|---|---|---|"]
+                "| id | property | change | needs, to manifest | tests pass with it | demo with / without | first run of the machinery | detected by (now) | missed by |",
+                "|---|---|---|---|---|---|---|---|---|"]
         for name, meta, res in srows:
             det = ", ".join(f"{p} ({c['seconds']}s)" for p, c in res.get("checks", {}).items() if c["exit"] == 1)
             mis = ", ".join(p for p, c in res.get("checks", {}).items() if c["exit"] != 1)
             out.append(f"| {name} | {meta['property']} | {meta['what']} | {meta['needs']} | "
                        f"{'yes' if res.get('tests_pass_with_change') else 'no'} | "
-                       f"{res.get('demo_exit_with_change')} / {res.get('demo_exit_without_change')} | {det} | {mis} |")
+                       f"{res.get('demo_exit_with_change')} / {res.get('demo_exit_without_change')} | {meta.get('first_run', '')} | {det} | {mis} |")
         out.append("")
     p = os.path.join(VERIF, "DESIGN.md")
     s = open(p).read()
